@@ -274,7 +274,8 @@ mut('C18', 'own-interface-order', 'stil.py', '        interface = c.s_nodes\n', 
 mut('C18', 'scanmap-forward', 'stil.py', '            for n in reversed(chain[1:-1]):', '            for n in chain[1:-1]:', 'C18.chain')
 mut('C18', 'scan-in-not-reversed', 'stil.py', '            scan_in_inversion = list(reversed(scan_in_inversion))\n', '', 'C18.chain')
 mut('C18', 'inversion-carried-over', 'stil.py', '            scan_in_inversion = list(reversed(scan_in_inversion))\n            inversion = False\n', '            scan_in_inversion = list(reversed(scan_in_inversion))\n', 'C18.chain')
-mut('C18', 'so-inversion-is-si', 'stil.py', 'scan_inversions[chain[-1]] = logic.mvarray(scan_out_inversion)[0]', 'scan_inversions[chain[-1]] = logic.mvarray(scan_in_inversion)[0]', 'C18.chain')
+mut('C18', 'so-inversion-is-si', 'stil.py', 'scan_inversions[chain[-1]] = logic.mvarray(scan_out_inversion)', 'scan_inversions[chain[-1]] = logic.mvarray(scan_in_inversion)', 'C18.chain')
+mut('C18', 'inversion-scalar', 'stil.py', 'scan_inversions[chain[0]] = logic.mvarray(scan_in_inversion)', 'scan_inversions[chain[0]] = logic.mvarray(scan_in_inversion)[0]', 'C18.rank')
 mut('C18', 'loc-load-diverges', 'stil.py', '                np.bitwise_xor(pattern, inversions, out=pattern)\n                init[scan_maps[si_port], i] = pattern', '                init[scan_maps[si_port], i] = pattern', 'C18.twins')
 mut('C18', 'responses-wrong-map', 'stil.py', 'resp[scan_maps[so_port], i] = pattern', 'resp[scan_maps[so_port][::-1], i] = pattern', 'C18.twins')
 mut('C18', 'transition-swapped', 'logic.py', '    out[...] = (init & 0b010) | (final & 0b001)', '    out[...] = (final & 0b010) | (init & 0b001)', 'C18.transition')
